@@ -248,13 +248,14 @@ def _block_leaves(block) -> bool:
     return False
 
 
-def _branch_key(block) -> tuple:
-    is_error = any(
-        isinstance(n, ast.Call) and ((dotted_of(n.func) or "").split(".")[-1].endswith("Error") or (dotted_of(n.func) or "") == "assert_never")
-        for st in block for n in ast.walk(st)
-    )
-    size = sum(1 for st in block for _ in ast.walk(st))
-    return (0 if is_error else 1, size)
+def _is_error_branch(block) -> bool:
+    for st in block:
+        for n in ast.walk(st):
+            if isinstance(n, ast.Call):
+                name = dotted_of(n.func) or ""
+                if "error" in name.lower() or name == "assert_never":
+                    return True
+    return False
 
 
 def _chain_has_final_else(st: ast.If) -> bool:
@@ -293,10 +294,9 @@ def _normalise_else_after_leave(tree: ast.AST) -> None:
                         body_leaves = _block_leaves(st.body)
                         else_leaves = _block_leaves(st.orelse)
                         if body_leaves and else_leaves:
-                            # both leave: the order of the branches is free; the error branch stands first, then the smaller one,
-                            # then the one under the positive test
-                            kb, ke = _branch_key(st.body), _branch_key(st.orelse)
-                            if ke < kb or (ke == kb and isinstance(st.test, ast.UnaryOp) and isinstance(st.test.op, ast.Not)):
+                            # both leave: the order of the branches is free.  The error branch stands first; otherwise the order
+                            # is kept as written (so that adding or removing the ``else`` of a guard clause changes nothing).
+                            if _is_error_branch(st.orelse) and not _is_error_branch(st.body):
                                 st.test = _negated(st.test)
                                 st.body, st.orelse = st.orelse, st.body
                         elif else_leaves and not body_leaves and not (len(st.body) == 1 and isinstance(st.body[0], ast.If)):
